@@ -157,7 +157,8 @@ theorem statusSet_line_ok (s : Str) (h : statusStrOK s = true) :
         · exact isDigit_not_isWs _ hb
         · exact isDigit_not_isWs _ hc) (Or.inl (by simp))
       simpa [splitWs] using this
-    have hint : pyInt [a, b, c] = some (n : Int) := by rw [← hnat]; exact pyInt_natStr n
+    have hint : pyIntLim [a, b, c] = some (n : Int) := by
+      rw [pyIntLim_of_length_le (by simp [Ombott.Gen.intMaxStrDigits])]; rw [← hnat]; exact pyInt_natStr n
     refine ⟨n, ?_, ?_⟩
     · unfold statusSet
       simp only [contains_space, if_true, hstrip, hsplit, hint]
